@@ -100,7 +100,9 @@ def compare(kind, where, case, mt, exp, r, t, fields=('word', 'pos', 'edge', 'le
             '%s does not return the root of a well-formed tree' % where)
         return
     got = extract(r)
-    d = mt_equal(exp, got, tok_fields=fields, edges=True, sid=True)
+    if case.get('via') == 'brackets':       # the bracket format carries words, tags and structure only
+        fields = tuple(f for f in fields if f in ('word', 'pos'))
+    d = mt_equal(exp, got, tok_fields=fields, edges=case.get('via') != 'brackets', sid=True)
     if d:
         bad(kind, d)
 
@@ -524,6 +526,16 @@ def run_chunk(chunk):
                         for wp in (False, True):
                             vs, nt = check_substitute(j, entries, wp, q)
                             take(vs, nt, ('s', model.shape_str(sh), tuple(entries), q, wp))
+                # sentence ids that come from the bracket reader's numbering option (first id 0)
+                if model.is_continuous(sh):
+                    j0 = model.simple_mt(sh, sid=0).to_json()
+                    for entries in ([(0, 1)], [(0, n + 1)], [(0, 1), (1, 1)], [(1, 1)]):
+                        _via[0] = 'brackets'
+                        vs, nt = check_insert(j0, entries, True)
+                        take(vs, nt, ('i0', model.shape_str(sh), tuple(entries)))
+                        _via[0] = 'brackets'
+                        vs, nt = check_substitute(j0, entries, True, True)
+                        take(vs, nt, ('s0', model.shape_str(sh), tuple(entries)))
                 # programs: every sequence of 2..L token-editing operations on the same tree object
                 words = ['w1', ',', 'w3', ';', 'w5'][:n]
                 pmt = model.MT(1, model.mk_tokens(n, words=words), mt.root)
